@@ -15,7 +15,7 @@ EXPLANATION = (
 
 
 def check(ctx, run):
-    run.rules_run = ['R01.1', 'R01.2', 'R01.3', 'R01.4', 'R01.5', 'R01.7']
+    run.rules_run = ['R01.1', 'R01.2', 'R01.3', 'R01.4', 'R01.5', 'R01.7', 'R01.10']
     layout.r01_1(ctx, run)
     layout.r01_2(ctx, run)
     layout.r01_3(ctx, run)
@@ -24,6 +24,10 @@ def check(ctx, run):
     numcodec.r18_2(ctx, run, rule='R01.4/R18.2')
     layout.r01_5(ctx, run)
     layout.r01_7(ctx, run)
+    layout.r01_10(ctx, run)
+    # a depth limit in the codec that counts containers instead of depth makes encodable values undecodable (R20.6)
+    from rules import recursion as _rec
+    _rec.depth_counter_pairing(ctx, run, 'R01.11/R20.6', only=lambda p_: p_.startswith(('de::', 'ser::')))
     from rules import units as _units
     _units.check(ctx, run, 'R01.9/R05.15', only=lambda p_: p_.startswith('de::'))
     return report.finish(run, level='other', explanation=EXPLANATION, assumptions=ASSUME)
